@@ -57,10 +57,10 @@ def replay_plans(quick):
     base = {"PRaise": {"ErrI"}, "CatchThrow": True, "MisbehaveClose": False, "AsCoded": True, "PosKinds": {"locate"},
             "Positions": {0}, "Offsets": {1}, "Styles": {"self", "status", "tree"}}
     if quick:
-        return [dict(base, Kinds=set(KINDS), MaxOps=4, PMsgs=2, Thrown={"Err", "Abort"}, Forests="<- FShared", DevLists="<- ListsCurated")]
-    return [dict(base, Kinds={"run", "subs", "suspend", "monitor_during", "fly_during"}, MaxOps=6, PMsgs=3,
+        return [dict(base, Kinds=set(KINDS), MaxOps=4, PMsgs=2, Thrown={"Err", "Stop", "Abort"}, Forests="<- FShared", DevLists="<- ListsCurated")]
+    return [dict(base, Kinds={"run", "subs", "suspend", "monitor_during", "fly_during"}, MaxOps=5, PMsgs=3,
                  Thrown={"Err", "Stop", "Abort"}, Forests="<- FShared", DevLists="<- Lists4x3", MisbehaveClose=True),
             dict(base, Kinds={"stage"}, MaxOps=5, PMsgs=2, Thrown={"Err", "Stop", "Abort"}, Forests="<- FBoth",
                  DevLists="<- Lists4x3"),
-            dict(base, Kinds={"lazy_stage"}, MaxOps=5, PMsgs=3, Thrown={"Err", "Abort"}, Forests="<- FBoth",
+            dict(base, Kinds={"lazy_stage"}, MaxOps=5, PMsgs=2, Thrown={"Err", "Abort"}, Forests="<- FBoth",
                  DevLists="<- NoLists")]
